@@ -272,6 +272,7 @@ func genWave(r *vlib.R, kind string, groups int) string {
 		total += n
 	}
 	parts = append(parts, fmt.Sprintf("staged:ok:%d:z", 1+r.Intn(3)))
+	parts = append(parts, fmt.Sprintf("junk:ok:%d:t", 1+r.Intn(2)))
 	parts = append(parts, fmt.Sprintf("pipehalf:%s:%d:u", vlib.Pick(r, []string{"ok", "lag", "wrongid"}), 1+r.Intn(3)))
 	if kind == "n" {
 		parts = append(parts, fmt.Sprintf("cancellead:cold:%d:y", 3+r.Intn(3)))
@@ -302,11 +303,15 @@ func genSys(r *vlib.R, tier string, emit func(string)) {
 		emit("sys drain")
 		emit("sys new i 0")
 		emit("sys wave " + genWave(r, "i", 12))
-		emit("sys wave " + genWave(r, "i", 12))
+		if tier == "thorough" {
+			emit("sys wave " + genWave(r, "i", 12))
+		}
 		emit("sys drain")
-		emit(fmt.Sprintf("sys new n %d", 150+r.Intn(200))) // dedup wait shorter than a failing resolution
-		emit("sys wave " + genWave(r, "n", 10))
-		emit("sys drain")
+		if tier == "thorough" {
+			emit(fmt.Sprintf("sys new n %d", 150+r.Intn(200))) // dedup wait shorter than a failing resolution
+			emit("sys wave " + genWave(r, "n", 10))
+			emit("sys drain")
+		}
 	}
 	emit("sys end")
 }
@@ -354,6 +359,24 @@ func genExtra(r *vlib.R, tier string, emit func(string)) {
 		}
 	}
 	// EffectiveError over its whole domain; the cache's expiry handling for every context shape
+	// ingress entries x packet shapes x transports x queueing delay
+	emit("ing new 1000")
+	shapes := []string{"strict", "noedns", "auth", "answer", "opt2", "compressed"}
+	for i := 0; i < rounds*12; i++ {
+		age := vlib.Pick(r, []int{0, 0, 50, 300, 600, 800, 1300, 2500})
+		emit(fmt.Sprintf("ing serve %s %s %s %d", vlib.Pick(r, []string{"raw", "inline", "inline", "replay", "msg"}),
+			shapes[i%len(shapes)], vlib.Pick(r, []string{"udp", "udp", "tcp"}), age))
+	}
+	emit("ing end")
+	// the engine's inline terminal rule on the real serveInline, all 16 handler behaviours
+	emit("inl new")
+	for i := 0; i < 16; i++ {
+		emit(fmt.Sprintf("inl %s %s %s %s", vlib.B(i&1 != 0), vlib.B(i&2 != 0), vlib.B(i&4 != 0), vlib.B(i&8 != 0)))
+	}
+	emit("bw new")
+	for _, prev := range []int{0, -5000, -1, 300, 1999, 2000, 8000} {
+		emit(fmt.Sprintf("bw %d", prev))
+	}
 	emit("eff new")
 	for _, e := range []string{"none", "deadline", "canceled"} {
 		for _, hd := range []string{"t", "f"} {
